@@ -279,8 +279,8 @@ CHECKS["C08"] = {
     "note": "KNOWN FINDINGS on the unchanged tree (bounded stand-in, known_findings.json): S23 a follower keeps serving keys the installed snapshot no longer holds (components merge, nothing is cleared); "
             "S24 a follower whose log ends before the snapshot refuses every entry behind it (delete_through None mapped to SplitOff(0), pointer range put in front of the open log). "
             "Assumed: A-WAIT (actix runs the waited future and its map closure before the next message; checked that nothing effectful follows the chain), A-ACTOR (what a component does with a record: bounded only), "
-            "A-SNAPIMAGE (the installed file is a snapshot image as SnapshotWriterActor writes it: length prefixes fit 32 bits), the snapshot transfer itself (async-raft chunk stream, network), FileStore::finalize_snapshot_installation's "
-            "message order, RaftSnapshotManager::install_snapshot (catalogue) and RaftLogManager (pointer log) — bounded stand-in only; several processes: not modelled (two actor sets in one process).",
+            "A-SNAPIMAGE (the installed file is a snapshot image as SnapshotWriterActor writes it: length prefixes fit 32 bits), the snapshot transfer itself (async-raft chunk stream, network), "
+            "RaftSnapshotManager::install_snapshot (catalogue; refused by T20's tail-position rule) and RaftLogManager (pointer log) — bounded stand-in only; several processes: not modelled (two actor sets in one process).",
     "design_ref": "DESIGN.md §0.10",
     "technique": "contract-based deductive verification (Verus) of functions extracted verbatim from /repo on every run; actor future chains lambda-lifted mechanically (T20); bounded native stand-in for the served state",
 }
